@@ -127,10 +127,13 @@ def scn_refs(ctx):
     hist = []
     n = p.get("n", 2)
     for i in range(n):
-        fates = ("complete", "fail", "cancel-early", "cancel-in-flight") + (("poll-raises",) if kind == "poll" else ())
+        fates = ("complete", "fail", "cancel-early", "cancel-in-flight") + (("poll-raises",) if kind == "poll" else ()) + (
+            ("delegate-refuses",) if kind in ("retry", "throttle") else ())
         how = fates[ctx.choice(len(fates), "how%d" % i)]
         hist.append(how)
         fn, arg, res = Fn(i), Obj(("arg", i)), Obj(("res", i))
+        if how == "delegate-refuses":
+            me.refuse = True  # the executor below raises from submit(): that arrives in the layer's worker thread
         f = ex.submit(fn, arg, key=arg)
         refs["fn%d" % i] = weakref.ref(fn)
         refs["arg%d" % i] = weakref.ref(arg)
@@ -139,6 +142,9 @@ def scn_refs(ctx):
         ds = None
         if how == "cancel-early":
             f.cancel()
+        elif how == "delegate-refuses":
+            wait_done(f, sched.now() + 5)
+            me.refuse = False
         else:
             sched.vsleep_until(sched.now() + 0.25)  # let the layer hand it to the delegate
             ds = [d for d in me.submitted if not d.done()]
